@@ -70,6 +70,22 @@ func (m *Reg) metaFor(t *rapid.T, d string) banktypes.Metadata {
 	return CoinMetadata(d, rapid.Bool().Draw(t, "nameEqualsBase"), desc)
 }
 
+// pickDenom draws a coin denomination, four times out of five one that was never proposed before
+// (a denomination whose metadata is already in the bank store can only be refused again).
+func (m *Reg) pickDenom(t *rapid.T) string {
+	di := rapid.IntRange(0, len(CoinDenoms)-1).Draw(t, "denom")
+	d := CoinDenoms[di]
+	if rapid.IntRange(0, 4).Draw(t, "preferFresh") != 0 {
+		for i := range CoinDenoms {
+			c := CoinDenoms[(i+di)%len(CoinDenoms)]
+			if _, ok := m.W.App.BankKeeper.GetDenomMetaData(m.W.C.Ctx(), c); !ok {
+				return c
+			}
+		}
+	}
+	return d
+}
+
 // excludedDuplicate implements the exclusion of known finding KeyNameNotBase: proposing a base
 // denomination that is already registered while the metadata name is not a registered denomination.
 func (m *Reg) excludedDuplicate(reg Registry, md banktypes.Metadata) bool {
@@ -158,9 +174,21 @@ func (m *Reg) govAction(t *rapid.T) bool {
 	w := m.W
 	reg := w.ReadRegistry(w.C.Ctx())
 	kind := rapid.SampledFrom([]string{"registerCoin", "registerCoin", "addCoin", "addCoin", "addCoin", "registerERC20", "registerERC20", "toggle", "updateERC20", "updateERC20", "updateERC20"}).Draw(t, "gov")
+	if kind == "registerCoin" || kind == "addCoin" {
+		fresh := false
+		for _, c := range CoinDenoms {
+			if _, ok := w.App.BankKeeper.GetDenomMetaData(w.C.Ctx(), c); !ok {
+				fresh = true
+			}
+		}
+		if !fresh && rapid.IntRange(0, 3).Draw(t, "stillProposeKnownCoin") != 0 {
+			// every coin has been proposed before: re-proposals can only be refused, do something else mostly
+			kind = rapid.SampledFrom([]string{"registerERC20", "toggle", "updateERC20", "updateERC20"}).Draw(t, "govInstead")
+		}
+	}
 	switch kind {
 	case "registerCoin":
-		d := CoinDenoms[rapid.IntRange(0, len(CoinDenoms)-1).Draw(t, "denom")]
+		d := m.pickDenom(t)
 		md := m.metaFor(t, d)
 		if m.excludedDuplicate(reg, md) {
 			return false
@@ -172,7 +200,7 @@ func (m *Reg) govAction(t *rapid.T) bool {
 			m.R.Label("duplicate_denomination_refused")
 		}
 	case "addCoin":
-		d := CoinDenoms[rapid.IntRange(0, len(CoinDenoms)-1).Draw(t, "denom")]
+		d := m.pickDenom(t)
 		md := m.metaFor(t, d)
 		if m.excludedDuplicate(reg, md) {
 			return false
